@@ -472,6 +472,7 @@ fn run_once(sched: &Arc<Sched>, sc: &Value, sc_ix: usize, run_ix: usize, micro: 
                     }
                     out.push(line);
                 }
+                sched2.note_call_done(w);
                 if stop {
                     break;
                 }
@@ -550,6 +551,14 @@ pub fn run_scenarios(scs: &[Value]) -> (Vec<String>, Vec<Value>) {
                         }
                     };
                     schedules.push(run_once(&sched, sc, ix, r, micro, &out, &tx, &mut mk));
+                }
+            }
+            "starve" => {
+                let n = sc["threads"].as_array().map(|a| a.len()).unwrap_or(1);
+                for v in 0..n {
+                    let sch = sched.clone();
+                    let mut mk = move |_l: &Arc<Labels>, _n: usize| -> Box<dyn Chooser> { Box::new(Starve { sched: sch.clone(), victim: v, other: None, next_other: 0, victim_turn: true }) };
+                    schedules.push(run_once(&sched, sc, ix, v, micro, &out, &tx, &mut mk));
                 }
             }
             "dfs" => {
